@@ -173,7 +173,9 @@ def check(repo: Repo, R) -> None:
     fxp = repo.func(F_EXPORT, "ProtoExporter.export")
     ok = any(isinstance(n, ast.For) and ast.unparse(n.iter) == "self.tops" and bool(pat.find("self.export_module(m)", n)) for n in au.walk_no_nested(fxp.node))
     R.check(ok, rule, key_of(fxp), fxp.site, f"every top-level module is exported: {ok}", why="some tops are missing from the package")
-    from . import c02, c03
+    from . import c02, c03, c08
+    c08.check(repo, shared.Retag(R, lambda r: "C06.9-failed-visit-never-exported" if r.startswith("C08.3") else None,
+                                 "a module on which a checking pass failed is exported by the next call (the failure was not recorded, the checks are cached as done): the package is ill-formed"))
     c03.slice_inner(repo, shared.Retag(R, lambda r: "C06.7-targets-stay-inside-widths" if "index-bounds" in r else None,
                                        "a connection target names a bit outside its signal (e.g. bus[w] exported as slice [w:w] of a w-bit bus)"), "C02")
     c02.live_passes(repo, shared.Retag(R, lambda r: "C06.8-post-flattening-checks-live",
